@@ -135,6 +135,11 @@ def c11(tier):
             for t0k in (("fixed", 0.0), ("free", 0.5)) if tier != "thorough" else (("fixed", 0.0), ("free", 0.5), ("unknown",), ("param",)):
                 out.append(("%s-T%s-t0%s" % (meth, Tk[0], t0k[0]),
                             _mk(method=meth, N=2, M=2, degree=2, T=Tk, t0=t0k, ode=E("f", None, ("x", "u", "t")), constraints=cons(), objective=obj())))
+        for Tk, t0k in ((("free", 1.5), ("fixed", 0.0)), (("free", 1.5), ("free", 0.5)), (("fixed", 2.0), ("free", 0.5)), (("fixed", 2.0), ("fixed", 0.0))):
+            out.append(("%s-T%s-t0%s-allpv" % (meth, Tk[0], t0k[0]),
+                        _mk(method=meth, N=2, M=2, degree=2, T=Tk, t0=t0k, params=ALLP, variables=ALLV, ode=ODE_ALL,
+                            constraints=[Con(E("c1", 1, ("x", "u", "t", "T", "t0", "pc", "vc", "v")), "le", 1.0)],
+                            objective=[("integral", E("L", 1, ("x", "u", "t", "pc", "pcp", "v")))])))
         out.append(("%s-Tfree-geometric" % meth, _mk(method=meth, N=3, M=1, degree=2, T=("free", 1.0), grid=dict(kind="geometric", growth=2.0),
                                                      ode=E("f", None, ("x", "u", "t")), constraints=cons(), objective=obj())))
     return out
